@@ -154,7 +154,7 @@ class ImplHang(Exception):
     pass
 
 
-def run_impl_all(mod, cases, timeout=6000):
+def run_impl_all(mod, cases, timeout=9000):
     if not cases:
         return []
     ctx = mp.get_context("fork")
